@@ -73,11 +73,18 @@ func ClosedDocWith(t *rapid.T, p *Profile, maxTok int, label string, hook func([
 	var doc []byte
 	n := rapid.IntRange(1, 3).Draw(t, label+"parts")
 	for i := 0; i < n; i++ {
+		// soup parts must not join into a fence across the part boundary
+		join := func(part []byte) {
+			if len(doc) > 0 && len(part) > 0 && (doc[len(doc)-1] == '`' || doc[len(doc)-1] == '~') && part[0] == doc[len(doc)-1] {
+				doc = append(doc, ' ')
+			}
+			doc = append(doc, part...)
+		}
 		switch rapid.IntRange(0, 3).Draw(t, label+"part") {
 		case 0, 1:
-			doc = append(doc, hook(Soup(t, p, maxTok, label+"soup"))...)
+			join(hook(Soup(t, p, maxTok, label+"soup")))
 		case 2:
-			doc = append(doc, hook(Lines(t, p, 1+maxTok/4, label+"lines"))...)
+			join(hook(Lines(t, p, 1+maxTok/4, label+"lines")))
 		case 3:
 			if len(doc) > 0 && !bytes.HasSuffix(doc, []byte("\n")) {
 				doc = append(doc, '\n')
